@@ -267,14 +267,22 @@ def r4_merge_or_append(ctx):
             ctx.unrecognised(DIP, "DIP.parse", "merge-or-append", "lookup of an existing node with the same path not recognised")
         return
     lp = cands[0]
-    s_it = norm(lp.iter)
-    ctx.check(s_it in ("range(len(target.nodes))", "target.nodes", "enumerate(target.nodes)"), DIP, "DIP.parse",
-              "the existing-node lookup covers every node of the target environment", detail=s_it)
-    found = [i for i in lp.body if isinstance(i, ast.If) and "name == node.name" in norm(i.test)]
-    ok = len(found) == 1 and any(isinstance(x, ast.Break) for x in found[0].body) and \
-        not any("append" in norm(x) for x in ast.walk(found[0]))
+    ll = K.lookup_loop(lp)
+    if ll is None or ll["test"] not in (f"{ll['elem']}.name == node.name", f"node.name == {ll['elem']}.name"):
+        ctx.unrecognised(DIP, "DIP.parse", "merge-or-append", f"first-match lookup loop not recognised: for {norm(lp.target)} in {norm(lp.iter)}")
+        return
+    full = ("target.nodes", "target.nodes.nodes")      # NodeList delegates len/index/iteration to its .nodes list
+    if ll["collection"] in full:
+        ctx.holds(DIP, "DIP.parse", "the existing-node lookup covers every node of the target environment", detail=norm(lp.iter))
+    elif ll["collection"].startswith(("target.nodes[", "target.nodes.nodes[")) or "reversed(" in ll["collection"] or "[" in ll["collection"]:
+        ctx.violated(DIP, "DIP.parse", "the existing-node lookup covers every node of the target environment", detail=norm(lp.iter),
+                     expected="every node of target.nodes, first to last")
+    else:
+        ctx.unrecognised(DIP, "DIP.parse", "the existing-node lookup covers every node of the target environment", f"collection {ll['collection']}")
+    found = ll["found"]
+    ok = bool(found) and isinstance(found[-1], ast.Break) and not any("append" in norm(x) for s_ in found for x in ast.walk(s_))
     ctx.check(ok, DIP, "DIP.parse", "a node with an existing path is merged into that entry (first match) and not appended",
-              detail=[norm(x)[:60] for x in (found[0].body if found else [])])
+              detail=[norm(x)[:60] for x in found])
     app = [norm(x) for x in lp.orelse if isinstance(x, ast.Expr)]
     ctx.check("target.nodes.append(node)" in app, DIP, "DIP.parse", "a node with a new path is appended (first-appearance order)", detail=app)
     # nothing else reorders target.nodes
